@@ -171,7 +171,7 @@ func setupUniverse(timeT types.Type) {
 	for _, n := range []string{"lastpkt", "lastsent"} {
 		types.Universe.Insert(types.NewFunc(token.NoPos, nil, n, types.NewSignatureType(nil, nil, nil, nil, types.NewTuple(v("", types.NewSlice(ghostByteT))), false)))
 	}
-	for _, n := range []string{"sealed", "opened", "lastreadok"} {
+	for _, n := range []string{"sealed", "opened", "lastreadok", "tlsdone"} {
 		types.Universe.Insert(types.NewFunc(token.NoPos, nil, n, types.NewSignatureType(nil, nil, nil, nil, types.NewTuple(v("", bt)), false)))
 	}
 	types.Universe.Insert(types.NewFunc(token.NoPos, nil, "calls", types.NewSignatureType(nil, nil, nil, types.NewTuple(v("name", types.Typ[types.String])), types.NewTuple(v("", mathintType)), false)))
